@@ -59,8 +59,8 @@ PLAN = {
     },
     'C16': {
         'inv': ['ConnAgree', 'C16_SessionIsolation'],
-        'quick': ['sessions_quick'],
-        'thorough': ['sessions_quick', 'sessions'],
+        'quick': ['sessions_quick', 'sessions_quick_b'],
+        'thorough': ['sessions_quick', 'sessions_quick_b', 'sessions'],
     },
 }
 
@@ -94,9 +94,18 @@ PLAN.update({
                   'athr_api+rxdisc+lost_al', 'athr_api_other+lost_al_2ns'],
         'thorough': ['a' + k for k in threads.CONFIGS],
     },
+    'C14p': {
+        'fam': 'pubsub',
+        'inv': [],
+        'quick': ['ps_cb_quick', 'ps_listener_junk_quick',
+                  'ps_listener_enc_quick'],
+        'thorough': ['ps_cb_quick', 'ps_listener_junk_quick',
+                     'ps_listener_enc_quick', 'ps_imm_quick',
+                     'ps_delay_quick', 'ps_listener_cb_quick'],
+    },
     'C14': {
         'inv': ['ConnAgree'],
-        'also': ['C14c'],
+        'also': ['C14c', 'C14p'],
         'quick': ['acks_quick', 'lifecycle_quick_ac'],
         'thorough': ['rooms_quick', 'acks_quick', 'lifecycle_quick_ac',
                      'events_quick', 'events_quick_bg', 'sessions_quick',
@@ -142,9 +151,9 @@ PLAN.update({
         'inv': ['C15_ListenerAlive', 'C15_EchoAndJunkChangeNothing',
                 'C07_CallbackOnOrigin'],
         'quick': ['ps_listener_junk_quick', 'ps_listener_cb_quick',
-                  'ps_listener_fault_quick'],
+                  'ps_listener_fault_quick', 'ps_listener_enc_quick'],
         'thorough': ['ps_listener_junk_quick', 'ps_listener_cb_quick',
-                     'ps_listener_fault_quick'],
+                     'ps_listener_fault_quick', 'ps_listener_enc_quick'],
     },
     'C18g': {
         'fam': 'admin',
